@@ -64,7 +64,7 @@ theorem source_binop : LowerOrder.binop = [
   "Value::BinOp{left:v0,binop:*binop,ty:v2,right:v3}"
 ] := rfl
 
-/-- `normalizedFunctionCall`: the receiver is stored in its temporary first; then `arguments.iter()` (not reversed): each argument is lowered and stored before the next (`LowerS.lowerArgs`). -/
+/-- `normalizedFunctionCall`: the receiver is stored in its temporary first; then `arguments.iter()` (not reversed): each argument is lowered and stored before the next (`LowerS.lowerArgs`). `for(&args)` is the loop that takes the argument temporaries off the list of live variables right before the call value is built (fix 176e3ed; it emits nothing). -/
 theorem source_normalized_function_call : LowerOrder.normalizedFunctionCall = [
   "if",
   "self.undropped_tmp()",
@@ -78,6 +78,8 @@ theorem source_normalized_function_call : LowerOrder.normalizedFunctionCall = [
   "endclosure",
   "arguments.iter().map",
   "args.extend",
+  "for(&args)",
+  "endfor",
   "func.signature.parameter_types.iter",
   "closure",
   "endclosure",
@@ -308,12 +310,18 @@ theorem source_access : LowerOrder.access = [
   "self.assign_to_var(v1,v2)"
 ] := rfl
 
-/-- `record`: `for (s, expr) in &record.fields` (source order): each field lowered and stored before the next. -/
+/-- `record`: `record.fields.iter()` (source order, not reversed): each field is lowered AND stored (`assign_to_var`) before the next one, like the arguments of an enum constructor; then the result temporary is allocated and the fields are moved in, in the same order (fix bb2b488; `LowerS.lowerCtorArgs` + `storeFields`). -/
 theorem source_record : LowerOrder.record = [
-  "self.tmp(v0)",
-  "for(&record.fields)",
-  "self.expr(v1)",
-  "self.do_assign(Place{var:to.clone(),root_ty:ty,projection:vec![Projection::Field(**s)…,v2,v3)",
+  "record.fields.iter",
+  "closure",
+  "self.expr(v0)",
+  "self.assign_to_var(v1,v2)",
+  "endclosure",
+  "record.fields.iter().map",
+  "….collect",
+  "self.tmp(v3)",
+  "for(fields)",
+  "self.do_assign(Place{var:to.clone(),root_ty:ty,projection:vec![Projection::Field(s)],…,v2,Value::Move(var))",
   "endfor"
 ] := rfl
 
